@@ -334,6 +334,20 @@ class GraphInitializers(collections.UserDict[str, "_core.Value"]):
         """Add an initializer to the graph."""
         self[value.name] = value  # type: ignore[index]
 
+    def copy(self) -> dict[str, _core.Value]:  # type: ignore[override]
+        """Return a plain ``dict`` with the current initializers.
+
+        The inherited ``UserDict.copy`` would create a second tracked container for the
+        same graph: removing an entry from that copy would release a value that is
+        still an initializer of the graph.
+        """
+        return dict(self.data)
+
+    def __ior__(self, other):  # type: ignore[override]
+        """``initializers |= mapping`` goes through the same checks as ``update``."""
+        self.update(other)
+        return self
+
     # ------------------------------------------------------------------
     # Tensor-centric convenience accessors
     #
